@@ -157,6 +157,63 @@ def F7d():
     return (t.get("handler_s", 0) >= 1.2 and a_s >= 1.2), f"handler finished {a_s:.2f}s after the peer's EOF on asyncio, {t.get('handler_s', -1):.2f}s on trio (keep_alive_timeout 1.5s)"
 
 
+def _stuck_app():
+    async def app(scope, receive, send, sync_spawn=None, call_soon=None):
+        if scope["type"] == "lifespan":
+            while True:
+                m = await receive()
+                if m["type"] == "lifespan.startup":
+                    await send({"type": "lifespan.startup.complete"})
+                elif m["type"] == "lifespan.shutdown":
+                    await send({"type": "lifespan.shutdown.complete"})
+                    return
+        else:
+            await asyncio.sleep(3600)  # a request that never completes
+    return app
+
+
+def F15():
+    """asyncio worker, one request that never completes, graceful_timeout 0.3 s: after the shutdown
+    trigger worker_serve does not return within graceful_timeout + shutdown_timeout + slack --
+    Server.wait_closed() (CPython 3.12.1) waits for the open connection before the grace period is
+    even started; the trio worker returns after the grace period"""
+    import socket as _socket
+
+    from hypercorn.app_wrappers import ASGIWrapper
+    from hypercorn.asyncio.run import worker_serve
+    from hypercorn.config import Sockets
+
+    async def main():
+        cfg = _config(graceful_timeout=0.3, shutdown_timeout=0.5)
+        ls = _socket.socket()
+        ls.bind(("127.0.0.1", 0))
+        ls.listen(5)
+        ls.setblocking(False)
+        port = ls.getsockname()[1]
+        trigger = asyncio.Event()
+        task = asyncio.ensure_future(worker_serve(ASGIWrapper(_stuck_app()), cfg, sockets=Sockets([], [ls], []), shutdown_trigger=trigger.wait))
+        await asyncio.sleep(0.2)
+        r, w = await asyncio.open_connection("127.0.0.1", port)
+        w.write(b"GET / HTTP/1.1\r\nHost: x\r\n\r\n")
+        await w.drain()
+        await asyncio.sleep(0.2)
+        t0 = time.monotonic()
+        trigger.set()
+        done, _ = await asyncio.wait([task], timeout=3.0)
+        took = time.monotonic() - t0
+        returned = bool(done)
+        task.cancel()
+        w.close()
+        try:
+            await task
+        except BaseException:
+            pass
+        return returned, took
+
+    returned, took = asyncio.run(main())
+    return (not returned), f"asyncio worker_serve returned={returned} {took:.2f}s after the trigger (graceful_timeout 0.3s + shutdown_timeout 0.5s)"
+
+
 SCENARIOS = {k: v for k, v in globals().items() if k.startswith("F") and callable(v)}
 
 if __name__ == "__main__":
